@@ -9,6 +9,7 @@
 use vstd::prelude::*;
 use vstd::std_specs::ops::*;
 
+// verif: counter-overflow-undecided
 verus! {
 
 // ---- assumed: time ---------------------------------------------------------------------------
